@@ -117,7 +117,8 @@ func VerifReadSeekHistory() {
 		}
 		if verifrt.Param("readonly", 0) == 0 && verifrt.Choose(2) == 0 {
 			whence := verifrt.Choose(3)
-			off := int64(verifrt.IntRange(-(1 << 40), 1<<40))
+			rng := verifrt.Param("offrange", 1<<40)
+			off := int64(verifrt.IntRange(-rng, rng))
 			checkSeek(tag, rss[r], ms[r], off, whence)
 		} else {
 			sz := 1 + verifrt.Choose(maxbuf)
